@@ -2629,6 +2629,19 @@ theorem items_configurator_exact (rules : List P) (i : String) (h : ∀ r ∈ ru
   obtain ⟨a, ha, hb⟩ := stingy_exact rules i (fun r hr => itemChoice_rtx r (h r hr)) hn
   exact ⟨a, ha, hb, by rw [hb], fun _ => by rw [hb], by rw [hb], by rw [hb]⟩
 
+/-- … and so does every configurator that `add` builds from it: extending an everyday configurator by another choice over
+    items and storing the result as JSON loses nothing (with C18's `add_eq_mk`) -/
+theorem added_configurator_exact (i b s v ks m) (r c' : P) (h : Config.add (.node i b s v ks m) r = some c')
+    (hk : ∀ k ∈ ks, ItemChoice k) (hr : ItemChoice r) (hn : ((ks ++ [r]).map (·.id)).Nodup) :
+    ∃ a, PJ.toAst true (toJson c') = some a ∧ a.build = c' ∧ Lex.defaultPrios a.build = Lex.defaultPrios c' := by
+  have hc := C18.add_eq_mk i b s v ks m r c' h
+  subst hc
+  obtain ⟨a, ha, hb, hd, _⟩ := items_configurator_exact (ks ++ [r]) i (fun x hx => by
+    rcases List.mem_append.1 hx with hx | hx
+    · exact hk x hx
+    · simp only [List.mem_singleton] at hx; subst hx; exact hr) hn
+  exact ⟨a, ha, hb, hd⟩
+
 /-- non-vacuity of `items_configurator_exact`'s premises: `cc.Xor(x, y, default=x, id="X")` is an `ItemChoice` -/
 example : ItemChoice (mkCcXor [(true, .leaf "x" ⟨0, 1⟩), (true, .leaf "y" ⟨0, 1⟩)] [("x", ⟨0, 1⟩)] (some "X")) :=
   ⟨_, _, _, _, by simp [isLeaf], by simp [P.id], Or.inr rfl⟩
